@@ -56,8 +56,10 @@ theorem norm_value (mr L eA : Nat) (hL : L ≤ 24) (h1 : 2^L ≤ mr) (h2 : mr < 
   · rw [n1 (by omega), if_neg h, Nat.add_zero, Nat.mul_assoc, ← Nat.pow_add]
     congr 2; omega
 
-theorem fpaddCore_ulp (A B : Nat) (hA1 : 1 ≤ expOf A) (hA2 : expOf A ≤ 254) (hB1 : 1 ≤ expOf B)
-    (hmag : mag B ≤ mag A) (hs : sumNormal A B = true) : addOk A B (fpaddCore A B) = true := by
+/-- the swapped datapath meets the property's bound (`addOk`) AND the tightened one (`addTight`) -/
+theorem fpaddCore_strong (A B : Nat) (hA1 : 1 ≤ expOf A) (hA2 : expOf A ≤ 254) (hB1 : 1 ≤ expOf B)
+    (hmag : mag B ≤ mag A) (hs : sumNormal A B = true) :
+    addOk A B (fpaddCore A B) = true ∧ addTight A B (fpaddCore A B) = true := by
   have hfa := fracOf_lt A
   have hfb := fracOf_lt B
   have hsa := signOf_lt A
@@ -134,6 +136,10 @@ theorem fpaddCore_ulp (A B : Nat) (hA1 : 1 ≤ expOf A) (hA2 : expOf A ≤ 254) 
   have h2L : mr < 2^(mr.log2 + 1) := Nat.lt_log2_self
   have hL : mr.log2 ≤ 24 := by have := (Nat.log2_lt hmr0).mpr hmr25; omega
   have hLd : signOf A ≠ signOf B → mr.log2 ≤ 23 := fun h => by have := (Nat.log2_lt hmr0).mpr (hmr24 h); omega
+  have hLs : signOf A = signOf B → 23 ≤ mr.log2 := fun h => by
+    apply (Nat.le_log2 hmr0).mpr
+    simp only [h, decide_true, if_true] at hrel1
+    rw [hrel1]; exact Nat.le_trans hmA' (Nat.le_add_right _ _)
   generalize mr.log2 = L at *
   -- S in terms of mr·V
   have hSlt : S < mr * 2^(expOf A - 1) + 2^(expOf A - 1) ∧ (signOf A = signOf B → mr * 2^(expOf A - 1) ≤ S) := by
@@ -182,26 +188,62 @@ theorem fpaddCore_ulp (A B : Nat) (hA1 : 1 ≤ expOf A) (hA2 : expOf A ≤ 254) 
       have := Nat.mul_le_mul_right (2^(expOf A - 1)) this
       omega
     · omega
+  have hX0 : L ≠ 24 → (if L = 24 then (mr % 2) * 2^(expOf A - 1) else 0) = 0 := fun h => if_neg h
   generalize (if L = 24 then (mr % 2) * 2^(expOf A - 1) else 0) = X at *
   generalize hfrdef : (mr * 2^(24 - L) % 2^25) / 2 % 2^23 = fr at *
   generalize signOf A * 2^31 + ((expOf A + L - 23) * 2^23 + fr) = r at *
   have hMR : mag r = (2^23 + fr) * 2^(expOf A + L - 23 - 1) := by unfold mag mant; rw [w3, w4]
   have hMRpos := mag_pos r
   have hU : ulpMax A B = 2^(expOf A - 1) := by unfold ulpMax; rw [Nat.max_eq_left hle]
-  unfold addOk normal
-  rw [hU]
-  simp only [Bool.and_eq_true, decide_eq_true_eq]
+  have hUr : ulp r = 2^(expOf A + L - 23 - 1) := by unfold ulp; rw [w3]
+  have hU23 : L = 23 → 2^(expOf A + L - 23 - 1) = 2^(expOf A - 1) := fun h => by subst h; congr 1
+  have hU24 : L = 24 → 2^(expOf A + L - 23 - 1) = 2 * 2^(expOf A - 1) := fun h => by
+    subst h; rw [show expOf A + 24 - 23 - 1 = (expOf A - 1) + 1 by omega, Nat.pow_succ]; omega
   rw [← hMR] at hnv
   have hsgA : signOf A = 0 ∨ signOf A = 1 := by omega
   have hsgB : signOf B = 0 ∨ signOf B = 1 := by omega
-  unfold sum sval
-  rw [w2]
-  refine ⟨⟨⟨⟨w1, by omega⟩, by omega⟩, ?_⟩, ?_⟩
-  · rcases hsgA with h1 | h1 <;> rcases hsgB with h2 | h2 <;> simp [h1, h2] at hWA hSdef ⊢ <;> omega
-  · rcases hsgA with h1 | h1 <;> rcases hsgB with h2 | h2 <;> simp [h1, h2] at hWA hSdef ⊢ <;> omega
+  refine ⟨?_, ?_⟩
+  · unfold addOk normal
+    rw [hU]
+    simp only [Bool.and_eq_true, decide_eq_true_eq]
+    unfold sum sval
+    rw [w2]
+    refine ⟨⟨⟨⟨w1, by omega⟩, by omega⟩, ?_⟩, ?_⟩
+    · rcases hsgA with h1 | h1 <;> rcases hsgB with h2 | h2 <;> simp [h1, h2] at hWA hSdef ⊢ <;> omega
+    · rcases hsgA with h1 | h1 <;> rcases hsgB with h2 | h2 <;> simp [h1, h2] at hWA hSdef ⊢ <;> omega
+  · unfold addTight
+    rw [hU, hUr]
+    unfold sum sval
+    rw [w2]
+    generalize 2^(expOf A + L - 23 - 1) = Ur at *
+    by_cases hsg : signOf A = signOf B
+    · rw [if_pos hsg]
+      simp only [Bool.and_eq_true, decide_eq_true_eq]
+      have hL2 : L = 23 ∨ L = 24 := by have := hLs hsg; omega
+      rcases hL2 with l | l
+      · have u := hU23 l
+        have x0 := hX0 (by omega)
+        rcases hsgA with h1 | h1 <;> rcases hsgB with h2 | h2 <;> simp [h1, h2] at hWA hSdef hsg ⊢ <;> omega
+      · have u := hU24 l
+        rcases hsgA with h1 | h1 <;> rcases hsgB with h2 | h2 <;> simp [h1, h2] at hWA hSdef hsg ⊢ <;> omega
+    · rw [if_neg hsg]
+      simp only [Bool.and_eq_true, decide_eq_true_eq]
+      have x0 := hX0 (by have := hLd hsg; omega)
+      rcases hsgA with h1 | h1 <;> rcases hsgB with h2 | h2 <;> simp [h1, h2] at hWA hSdef hsg ⊢ <;> omega
+
+theorem fpaddCore_ulp (A B : Nat) (hA1 : 1 ≤ expOf A) (hA2 : expOf A ≤ 254) (hB1 : 1 ≤ expOf B)
+    (hmag : mag B ≤ mag A) (hs : sumNormal A B = true) : addOk A B (fpaddCore A B) = true :=
+  (fpaddCore_strong A B hA1 hA2 hB1 hmag hs).1
 
 theorem addOk_comm (a b r : Nat) : addOk a b r = addOk b a r := by
   unfold addOk sum ulpMax; rw [Int.add_comm, Nat.max_comm]
+
+theorem addTight_comm (a b r : Nat) : addTight a b r = addTight b a r := by
+  unfold addTight sum ulpMax
+  rw [Int.add_comm, Nat.max_comm]
+  by_cases h : signOf a = signOf b
+  · rw [if_pos h, if_pos h.symm]
+  · rw [if_neg h, if_neg (fun h' => h h'.symm)]
 
 theorem sumNormal_comm (a b : Nat) : sumNormal a b = sumNormal b a := by
   unfold sumNormal sum; rw [Int.add_comm]
@@ -216,5 +258,16 @@ theorem fpadd_sign_ulp' (a b : Nat) (ha : a < 2^32) (hb : b < 2^32) (ha1 : 1 ≤
     exact fpaddCore_ulp b a hb1 hb2 ha1 (Nat.le_of_lt (hlt.mpr h)) (by rw [sumNormal_comm]; exact hs)
   · rw [if_neg h]
     exact fpaddCore_ulp a b ha1 ha2 hb1 (by have := mt hlt.mp h; omega) hs
+
+/-- the tightened bounds for FPAdder_SP with the magnitude swap -/
+theorem fpadd_tight' (a b : Nat) (ha : a < 2^32) (hb : b < 2^32) (ha1 : 1 ≤ expOf a) (ha2 : expOf a ≤ 254)
+    (hb1 : 1 ≤ expOf b) (hb2 : expOf b ≤ 254) (hs : sumNormal a b = true) : addTight a b (fpadd a b) = true := by
+  rw [fpadd_swap a b ha hb]
+  have hlt := mag_lt_iff a b ha1 hb1
+  by_cases h : (expOf a < expOf b ∨ (expOf a = expOf b ∧ fracOf a < fracOf b))
+  · rw [if_pos h, addTight_comm]
+    exact (fpaddCore_strong b a hb1 hb2 ha1 (Nat.le_of_lt (hlt.mpr h)) (by rw [sumNormal_comm]; exact hs)).2
+  · rw [if_neg h]
+    exact (fpaddCore_strong a b ha1 ha2 hb1 (by have := mt hlt.mp h; omega) hs).2
 
 end C13
